@@ -322,8 +322,8 @@ impl Property for C19 {
     }
     fn budget(&self, tier: Tier) -> (u32, usize) {
         match tier {
-            Tier::Quick => (6_000, 8),
-            Tier::Thorough => (200_000, 16),
+            Tier::Quick => (60_000, 8),
+            Tier::Thorough => (1_000_000, 16),
         }
     }
     fn run(&self, case: &ChaosCase) -> Report {
